@@ -31,7 +31,8 @@ CONSTANTS
   AE,         \* is_always_equal
   SoccFresh,  \* select_on_container_copy_construction returns a different instance
   Ops,        \* names of the operations the scenario enables
-  MaxCap, MaxCount, BudSet, NTags, MaxReserve
+  MaxCap, MaxCount, BudSet, NTags, MaxReserve,
+  PinAlloc    \* generator only: vector v is always constructed with allocator instance v (bounds who is addressed)
 
 NP == Len(P)
 Idx == 1..NP
@@ -44,7 +45,7 @@ MovedVal == 0          \* value of a moved-from non-trivial object (harness/trac
 
 (* allocator algebra *)
 EqAlloc(a, b) == AE \/ a = b
-Soccc(a) == IF SoccFresh THEN a + 10 ELSE a
+Soccc(a) == IF SoccFresh /\ a < 10 THEN a + 10 ELSE a     \* as harness/ledger.hpp: a copy of a copy keeps its instance
 DefaultAlloc == 1
 
 (***************************************************************************)
@@ -278,7 +279,8 @@ Do(n, v, a) ==
   /\ LET R == EffOf(S, n, v, a, DefaultPar) IN vec' = R.vec /\ el' = R.el
   /\ act' = [n |-> n, v |-> v, a |-> a]
 
-Construct        == \E v \in Vecs, c \in 0..MaxCap, b \in BudSet, al \in Allocs : Do("Construct", v, <<c, b, al>>)
+AllocChoice(v)   == IF PinAlloc /\ v \in Allocs THEN {v} ELSE Allocs
+Construct        == \E v \in Vecs, c \in 0..MaxCap, b \in BudSet : \E al \in AllocChoice(v) : Do("Construct", v, <<c, b, al>>)
 DefaultConstruct == \E v \in Vecs : Do("DefaultConstruct", v, <<>>)
 Destroy          == \E v \in Vecs : Do("Destroy", v, <<>>)
 EmplaceBack      == \E v \in Vecs, vs \in VsSpace : vec[v].st = "live" /\ Do("Emplace", v, <<FreshTag(v)>> \o vs)
